@@ -113,7 +113,12 @@ class MemPerDocWriter(base.PerDocWriterWithColumns):
             self._lengths[fieldname] = length
 
     def add_vector_items(self, fieldname, fieldobj, items):
-        self._vectors[fieldname] = tuple(items)
+        items = tuple(items)
+        if not items:
+            # A value that analyzed to no tokens has no vector (as in the
+            # on-disk codec)
+            return
+        self._vectors[fieldname] = items
 
     def finish_doc(self):
         with self._segment._lock:
